@@ -557,6 +557,118 @@ def gen_seal_steer(rng):
     return _assemble(wb, sb, pb, ms, ops)
 
 
+def _solve_cum(scale, lower, target_low, T):
+    """all cum >= 0 (smallest first, as a (start, step) pair) with (lower + scale*cum) mod T == target_low"""
+    from math import gcd
+    rhs = (target_low - lower) % T
+    g = gcd(scale, T)
+    if rhs % g:
+        return None
+    m = T // g
+    if m == 1:
+        return 0, 1
+    inv = pow((scale // g) % m, -1, m)
+    return ((rhs // g) * inv) % m, m
+
+
+def gen_seal_rare(rng):
+    """C11 for StateBits == 2*WordBits (where the property must hold): the last symbol is SOLVED FOR so that the
+    final interval sits in one of the measure-zero corners of the sealing rule:
+      'ones'  Normal situation, two-word seal needed, and the low word of lower+range is all ones
+              (a decoder fed an all-ones suffix then reads the very last point of the interval);
+      'wrap'  sealed while Inverted with lower in the top word-block and the wrapped upper end in the
+              lowest one (the seal point wraps and the second, zero, seal word is indispensable).
+    Suffixes: all-ones words, zeros, a second sealed message back to back is emulated by random words."""
+    wb, sb, pb = rng.choice([(8, 16, 8), (8, 16, 8), (16, 32, 16), (16, 32, 8), (32, 64, 32), (32, 64, 16)])
+    M, T, B = 1 << sb, 1 << (sb - wb), 1 << wb
+    kind = rng.choice(["ones", "wrap"])
+    P = min(pb, wb)
+    total = 1 << P
+    best = None
+    for attempt in range(60):
+        sim = Enc(wb, sb)
+        pre = []
+        ok = True
+        for _ in range(rng.choice([1, 1, 2, 3, 5])):
+            t = gen_table(rng, P)
+            e = rng.choice(t)
+            try:
+                sim.encode(P, e[1], e[2])
+            except OverflowError:
+                ok = False
+                break
+            pre.append((t, e[0]))
+        if not ok:
+            continue
+        if kind == "wrap":
+            # need an Inverted state right after a renormalisation
+            tries = 0
+            while sim.sit is None and tries < 6:
+                cp = _craft(rng, sim, P, 'enter')
+                tries += 1
+                if cp is None or not (1 <= cp[1] < total and cp[0] + cp[1] <= total):
+                    break
+                t, sym = _table_with(rng, P, cp[0], cp[1])
+                sim.encode(P, cp[0], cp[1])
+                pre.append((t, sym))
+            if sim.sit is None:
+                continue
+        elif sim.sit is not None:
+            continue
+        scale = sim.range >> P
+        if scale == 0:
+            continue
+        found = None
+        plo, phi = -(-T // scale), (2 * T - 2) // scale
+        ps = list(range(max(1, plo), min(phi, total - 1) + 1))
+        rng.shuffle(ps)
+        for p in ps[:40]:
+            r = scale * p
+            if kind == "ones":
+                sol = _solve_cum(scale, sim.lower, 2 * T - 1 - r, T)
+                if sol is None:
+                    continue
+                c0, step = sol
+                cands = [c0 + j * step for j in range(0, 4)]
+                for cum in cands:
+                    if cum + p <= total and sim.lower + scale * cum + r < M and (sim.lower + scale * cum) % T >= 1:
+                        found = (cum, p)
+                        break
+            else:
+                # lower' in (M - B, M), lower' + r - M < B, no wrap of lower'
+                lo_c = -(-(M - B + 1 - sim.lower) // scale)
+                hi_c = (M - 1 - sim.lower) // scale
+                for cum in range(max(0, lo_c), min(hi_c, total - p) + 1):
+                    nl = sim.lower + scale * cum
+                    if M - B < nl < M and nl + r >= M and nl + r - M < B:
+                        found = (cum, p)
+                        break
+            if found:
+                break
+        if found:
+            best = (pre, found)
+            break
+    ms, ops, msg = [], [], []
+    if best is None:
+        return gen_seal_steer(rng)
+    pre, (cum, p) = best
+    for t, sym in pre:
+        ms.append((P, t))
+        ops += [1, len(ms) - 1, sym]
+        msg.append((len(ms) - 1, sym))
+    t, sym = _table_with(rng, P, cum, p)
+    ms.append((P, t))
+    ops += [1, len(ms) - 1, sym]
+    msg.append((len(ms) - 1, sym))
+    ops += [3, 2, 6]
+    n = rng.choice([1, 2, 4])
+    sfx = rng.choice([[B - 1] * n, [B - 1] * n, [B - 1] * n, [0] * n, [rng.randrange(B) for _ in range(n)],
+                      [B - 2] + [B - 1] * (n - 1)])
+    ops += [9, len(sfx)] + sfx
+    ops += _decode_ops(rng, msg, [], len(ms), seeks=False)
+    return _assemble(wb, sb, pb, ms, ops)
+
+
 def gen_garbage(rng):
     """C10: decoders over arbitrary words: random, all-zero, all-ones, truncated / extended / bit-flipped
     valid streams, valid streams decoded with the wrong models; explicit seeks (also beyond the data)
